@@ -307,7 +307,7 @@ func (e *bigEnv) bytesOf(v ssa.Value, at ssa.Instruction) *X {
 						cnt++
 						lo, ok := sl.Low.(*ssa.BinOp)
 						if sl.High == nil && ok && lo.Op == token.SUB &&
-							isLenOf(lo.X, func(v ssa.Value) bool { return v == ssa.Value(x) }) &&
+							(isLenOf(lo.X, func(v ssa.Value) bool { return v == ssa.Value(x) }) || lo.X == x.Len) &&
 							isLenOf(lo.Y, func(v ssa.Value) bool { return lenBase(v) == lenBase(y.Call.Args[1]) }) {
 							tailSrc = y.Call.Args[1]
 						}
